@@ -662,6 +662,23 @@ Proof.
   destruct (assoc n m); reflexivity.
 Qed.
 
+(* the requested rename is used VERBATIM (no sanitisation, no re-casing), at the definition and at
+   every use site, whatever string it is *)
+Theorem patch_rename_verbatim : forall m n sh p r,
+  assoc n m = Some p -> pa_rename p = Some r ->
+  fst (type_patch m n) = r /\
+  det_name (e_det (new_named m n sh)) = Some r /\
+  (forall T f i, get_det T i = Some (e_det (new_named m n sh)) -> s_type_mod (sp_settings T) = None ->
+                 type_ident T (S f) i = Some r).
+Proof.
+  intros m n sh p r Hm Hr.
+  assert (E : det_name (e_det (new_named m n sh)) = Some r).
+  { rewrite patch_apply, Hm, Hr. reflexivity. }
+  split; [unfold type_patch; rewrite Hm, Hr; reflexivity|]. split; [exact E|].
+  intros T f i Hi Ht. cbn [type_ident]. rewrite Hi.
+  destruct (e_det (new_named m n sh)); simpl in E; try discriminate E; injection E as ->; rewrite Ht; reflexivity.
+Qed.
+
 Theorem named_use_is_entry_name : forall T f i d n,
   get_det T i = Some d -> det_name d = Some n -> s_type_mod (sp_settings T) = None ->
   type_ident T (S f) i = Some n.
